@@ -147,6 +147,13 @@ func runE1(spec RunSpec, ch *Choices) *RunResult {
 			clientsDone = false
 		}
 	}
+	if clientsDone && x.lateOps() {
+		if !x.d.Run() {
+			res.Inconcl = true
+			return finish()
+		}
+		x.checkPanics()
+	}
 	faultFree := !x.ioFired() && !x.transportClosedByHarness() && x.closeStep == 0 && !x.byz
 	connAlive := x.conn != nil && !connClosed(x.conn) && !x.serveDone
 
@@ -165,6 +172,7 @@ func runE1(spec RunSpec, ch *Choices) *RunResult {
 			x.viol("handler-stuck", "handler still running at quiescence although its client has ended: "+x.keyState(), fmt.Sprint(x.blockedCalls(), x.libCensus()))
 		} else if !clientsDone {
 			res.probe("probe_skipped_client_blocked")
+			x.checkNextRPCStuck()
 			if faultFree && connAlive && handlersDone {
 				x.viol("client-stuck", "client call blocked for ever on a healthy connection: "+x.stuckSummary(), fmt.Sprint(x.blockedCalls(), x.libCensus()))
 			}
@@ -400,4 +408,66 @@ func (x *e1) applyPlan(plan string) {
 		x.prog.IOFaults = map[string][]*Fault{}
 	}
 	x.prog.IOFaults[ep] = append(x.prog.IOFaults[ep], &Fault{Op: op, Kind: kind, Partial: partial})
+}
+
+// checkNextRPCStuck (C06): with a single client task, an rpc that cannot even start
+// (blocked acquiring the connection) although every earlier rpc has ended on both
+// sides and the connection does not report closed.
+func (x *e1) checkNextRPCStuck() {
+	if x.prog.NTasks != 1 || x.conn == nil || connClosed(x.conn) || x.pooled != nil {
+		return
+	}
+	for _, c := range x.blockedCalls() {
+		verb := apiVerb(c.API)
+		if verb != "NewStream" && verb != "Invoke" {
+			continue
+		}
+		w := whereClass(c.Where)
+		if w != "acquireSemaphore" && w != "waitForPreviousStream" && w != "newStream" {
+			continue
+		}
+		k := apiRPC(c.API)
+		ended := true
+		for _, r := range x.recs {
+			if r.Spec.Idx < k && (!r.ClientDone || (r.HStarted && !r.HReturned)) {
+				ended = false
+			}
+		}
+		if ended {
+			x.viol("next-rpc-stuck", "a new rpc cannot start although every earlier rpc ended on both sides and the connection does not report closed: "+verb+"@"+w+"; "+x.keyState(),
+				fmt.Sprint(x.blockedCalls(), x.libCensus()))
+		}
+	}
+}
+
+// lateOps (C04): at quiescence nothing is in the middle of a termination, so a
+// send or receive issued NOW on an rpc that was cancelled and is terminated must
+// fail. Returns whether a task was spawned.
+func (x *e1) lateOps() bool {
+	var todo []*rpcRec
+	for _, r := range x.recs {
+		if r.Cancelled && r.C != nil && r.C.st != nil && r.C.InCall == 0 && x.terminated(r.C.st) {
+			todo = append(todo, r)
+		}
+	}
+	if len(todo) == 0 {
+		return false
+	}
+	x.rt.Spawn("late-ops", func() {
+		for _, r := range todo {
+			k := r.Spec.Idx
+			var rerr, serr error
+			x.call(fmt.Sprintf("c.MsgRecv rpc%d", k), func() { rerr = r.C.st.MsgRecv(&Msg{}, x.enc) })
+			x.call(fmt.Sprintf("c.MsgSend rpc%d", k), func() { serr = r.C.st.MsgSend(&Msg{B: msgBytes(k, r.C.dir, 8, 0, 13)}, x.enc) })
+			x.d.Record(taskName(), "late-ops", fmt.Sprintf("rpc%d recv=%s send=%s", k, errStr(rerr), errStr(serr)))
+			x.res.probe("late_ops_on_cancelled_rpc")
+			if rerr == nil {
+				x.viol("cancel-later-op", fmt.Sprintf("receive issued at quiescence on a cancelled, terminated rpc succeeded mode=%s", x.cancelMode()), fmt.Sprintf("rpc%d", k))
+			}
+			if serr == nil {
+				x.viol("cancel-later-op", fmt.Sprintf("send issued at quiescence on a cancelled, terminated rpc succeeded mode=%s", x.cancelMode()), fmt.Sprintf("rpc%d", k))
+			}
+		}
+	})
+	return true
 }
